@@ -28,7 +28,8 @@ Key(i) == [kind |-> i.kind, module |-> i.module, name |-> i.name, alias |-> i.al
 
 \* ---- P-layer -----------------------------------------------------------------------------
 PositionViol(p, overwrite) ==
-       (IF p.src # "" /\ ~overwrite /\ p.res # p.src THEN {"ExistingKept"} ELSE {})
+       \* an existing annotation is left exactly as it was written (raw text), not merely with the same meaning
+       (IF p.src_raw # "" /\ ~overwrite /\ p.res_raw # p.src_raw THEN {"ExistingKept"} ELSE {})
   \cup (IF p.src = "" /\ p.stub # "" /\ p.res # p.stub THEN {"AnnotationsPresent"} ELSE {})
   \cup (IF p.src # "" /\ overwrite /\ p.stub # "" /\ p.res # p.stub THEN {"Overwritten"} ELSE {})
   \cup (IF p.src = "" /\ p.stub = "" /\ p.res # "" THEN {"NothingInvented"} ELSE {})
